@@ -170,6 +170,21 @@ def body_slim(case):
     op2 = slim.slim_mme(a_sizes, a_single, a_two, threshold=th)
     close(dense.matrix(op2.cores), dense.matrix(op.cores), 1e-13, float(np.max(np.abs(G))) or 1.0, 'repeatable',
           'second call with the same argument lists')
+    # parameter sweep: the caller changes rates inside the same list objects and builds the next generator
+    upd_single = [[[r[0], r[1], r[2] * 3] for r in s_] for s_ in a_single]
+    upd_two = [[[r[0], r[1], r[2], r[3], r[4] * 0.5] for r in t_] for t_ in a_two]
+    for s_ in a_single:
+        for r in s_:
+            r[2] = r[2] * 3
+    for t_ in a_two:
+        for r in t_:
+            r[4] = r[4] * 0.5
+    if any(len(x) for x in a_single) or any(len(x) for x in a_two):
+        G3 = reference_generator(sizes, upd_single, upd_two)
+        op3 = slim.slim_mme(a_sizes, a_single, a_two, threshold=th)
+        close(dense.matrix(op3.cores), G3, 1e-10, float(np.max(np.abs(G3))) or 1.0, 'generator_value',
+              'generator after the rates were changed inside the same list objects')
+        lab.add('rates_updated_in_place')
     if case['cyclic']:
         bond_ranks = [op.ranks[k] for k in range(1, d)]
         if len(set(bond_ranks)) > 1:
